@@ -201,4 +201,7 @@ def run(repo='/repo', tier='quick'):
                   'a repeated header field is not combined as <existing>, <new> on a path (appends %s, guards %s): the reported value loses or garbles a field that was on the wire' % (bad or ('', ''))[:2], f.loc)
     res.assumptions += ['equality of the reported strings with the wire is a statement about values and is not decided', 'the personality-specific request line parser (apache_2_2) shares the generic splitter',
                         'hybrid-mode setters (htp_tx_req_set_* / htp_tx_res_set_*) take the strings from the application and are outside the rule']
+    from . import mirror
+    mirror.run(db, res, 'C02.f', [('htp_tx_req_set_header', 'htp_tx_res_set_header', None), ('htp_tx_req_set_headers_clear', 'htp_tx_res_set_headers_clear', None),
+                                  ('htp_tx_req_set_protocol_number', 'htp_tx_res_set_protocol_number', None)])
     return res
